@@ -5,7 +5,7 @@ import re
 import framework as fw
 
 TIE = ["Nsq.Tie.ToolsRelayOpts"]
-PROPS = ["Nsq.Props.C20Loop"]
+PROPS = ["Nsq.Props.C20Loop", "Nsq.Props.C20Opts"]
 SPEC = "e8_relay_opts"
 
 
@@ -61,6 +61,51 @@ def tonsq_e2e(ctx, b_tonsq, corr_broken):
         ctx.log("to_nsq e2e model/impl disagree on `%s`:\n   impl =%s\n   model=%s" % (ops[idx][:160], a[:200], b[:200]))
     if diffs:
         corr_broken.append("correspondence to_nsq end-to-end (main-loop model)")
+
+
+def opts_leg(ctx, binp, test, name, corr_broken, env=None):
+    """one option-surface harness: ops through the driver (`opt …`), ORACLE-FAIL lines are violations"""
+    out = os.path.join(ctx.work, name)
+    os.makedirs(out, exist_ok=True)
+    e = {"VERIF_SEED": ctx.seed, "VERIF_N": ctx.budget(300, 3000), "VERIF_NARGS": ctx.budget(40, 300), "VERIF_OUT": out}
+    e.update(env or {})
+    rc, log = ctx.run_cmd([binp, "-test.run", "^%s$" % test, "-test.count=1"], timeout=ctx.budget(300, 1200), env=e)
+    if "ORACLE-DONE" not in log:
+        ctx.log("%s harness failed:\n%s" % (name, log[-1500:]))
+        corr_broken.append("%s harness exit %s" % (name, rc))
+        return
+    ops = open(os.path.join(out, name + ".ops")).read().splitlines()
+    impl = open(os.path.join(out, name + ".impl")).read().splitlines()
+    rc2, mout = ctx.driver("e8", stdin_path=os.path.join(out, name + ".ops"))
+    model = mout.splitlines()
+    for o, i in zip(ops, impl):
+        ctx.count_case(o + "|" + i, nontrivial=(i not in ("err", "keys=-", "marks=")))
+    hist = {}
+    for l in log.splitlines():
+        if l.startswith("HIST "):
+            w = l.split()
+            hist[" ".join(w[1:-1])] = int(w[-1])
+    ctx.corr.setdefault("relay_opts", {})[name] = {
+        "histogram": hist, "lines": len(ops), "oracle": [l for l in log.splitlines() if l.startswith("ORACLE-DONE")],
+        "notes": [l for l in log.splitlines() if l.startswith("WL-PRECISION")]}
+    if ops:
+        ctx.add_sample({"op": ops[0][:160], "impl": impl[0][:160]})
+    for l in log.splitlines():
+        if l.startswith("ORACLE-FAIL"):
+            what = l[len("ORACLE-FAIL "):]
+            key = name + "-oracle:" + re.sub(r"\d+", "N", what)[:60]
+            ctx.violation(key, "%s: %s" % (name, what[:500]), "seed %s\n%s\n" % (ctx.seed, what))
+    diffs = ctx.diff_lines(impl, model, name)
+    for idx, a, b in diffs[:3]:
+        ctx.log("%s model/impl disagree on `%s`:\n   impl =%s\n   model=%s" % (name, ops[idx][:200], a[:200], b[:200]))
+        ctx.violation(name + "-corr:" + ops[idx].split()[1], "%s: the real code answers %s where the model of the option surface says %s (op `%s`)"
+                      % (name, a[:200], b[:200], ops[idx][:200]), ops[idx] + "\nimpl: " + a + "\nmodel: " + b + "\n")
+    if diffs:
+        corr_broken.append("correspondence %s" % name)
+    # open finding: integers above 2^53 are rewritten by --whitelist-json-field (replayed on every run)
+    for l in log.splitlines():
+        if l.startswith("WL-PRECISION") and "9007199254740993" in l.split("out=")[0] and l.rstrip().endswith("same=false"):
+            ctx.violation("whitelist-rewrites-large-integers", "nsq_to_nsq --whitelist-json-field: " + l, l + "\n")
 
 
 def declare(ctx):
